@@ -75,9 +75,9 @@ macro_rules! from_samples_h {
             }
             assert!(mp4h::t_has_bframes(&t) == any_off, "offset table flagged iff some offset is non-zero");
             assert!(mp4h::t_total_duration(&t) == total, "total duration = sum of sample durations");
-            kani::cover!(any_off, "reordered sample present");
-            kani::cover!(!any_off, "no reordering");
-            kani::cover!(dur[$n - 1].is_none() && fallback.is_some(), "fallback duration used");
+            crate::vcover!(any_off, "reordered sample present");
+            crate::vcover!(!any_off, "no reordering");
+            crate::vcover!(dur[$n - 1].is_none() && fallback.is_some(), "fallback duration used");
             core::mem::forget(t);
         });
     };
@@ -148,8 +148,8 @@ macro_rules! stts_h {
                 assert!(rle_value(v, runs, 16, i) == Some(d[i]), "decoded delta equals the input duration");
                 i += 1;
             }
-            kani::cover!(runs == 1 && $n > 1, "one run");
-            kani::cover!(runs == $n, "all different");
+            crate::vcover!(runs == 1 && $n > 1, "one run");
+            crate::vcover!(runs == $n, "all different");
         });
     };
 }
@@ -192,7 +192,7 @@ macro_rules! ctts_h {
                 assert!(rle_value(v, runs, 16, i) == Some(d[i] as u32), "decoded offset equals the input offset");
                 i += 1;
             }
-            kani::cover!(d[0] < 0, "negative offset");
+            crate::vcover!(d[0] < 0, "negative offset");
         });
     };
 }
@@ -209,7 +209,7 @@ h!(c03_rle_empty, 2, {
     let e2: [i32; 0] = [];
     let c = snap::<16>(&mp4h::build_ctts_box(&e2));
     assert!(box_is(&c, 0, 16, b"ctts") && be32(&c, 12) == 0);
-    kani::cover!(true, "reached");
+    crate::vcover!(true, "reached");
 });
 
 // ---------------------------------------------------------------------------
@@ -252,9 +252,9 @@ h!(c03_writer_video_step, 6, {
             assert!(dg.video_count == 1 && s0.duration.is_none() && dg.video_last_delta.is_none() && dg.video_prev_pts == Some(dts0), "rejected write leaves no trace");
         }
     }
-    kani::cover!(r.is_ok(), "accepted");
-    kani::cover!(r.is_err() && dts1 > dts0, "rejected for 32-bit gap overflow");
-    kani::cover!(r.is_err() && dts1 <= dts0, "rejected for non-increasing DTS");
+    crate::vcover!(r.is_ok(), "accepted");
+    crate::vcover!(r.is_err() && dts1 > dts0, "rejected for 32-bit gap overflow");
+    crate::vcover!(r.is_err() && dts1 <= dts0, "rejected for non-increasing DTS");
     core::mem::forget((w, r));
 });
 
@@ -282,8 +282,8 @@ h!(c03_writer_audio_step, 6, {
             assert!(dg.audio_count == 1 && s0.duration.is_none() && dg.audio_last_delta.is_none());
         }
     }
-    kani::cover!(r.is_ok() && p1 == p0, "accepted with equal timestamps");
-    kani::cover!(r.is_err(), "rejected");
+    crate::vcover!(r.is_ok() && p1 == p0, "accepted with equal timestamps");
+    crate::vcover!(r.is_err(), "rejected");
     core::mem::forget((w, r));
 });
 
@@ -313,8 +313,8 @@ h!(c03_api_tick_first, 12, {
             assert!(s.dts == s.pts, "no explicit DTS: decode time = presentation time");
         }
     }
-    kani::cover!(r.is_ok() && t > 1.0 && t < 2.0, "accepted fractional time");
-    kani::cover!(r.is_err(), "rejected time");
+    crate::vcover!(r.is_ok() && t > 1.0 && t < 2.0, "accepted fractional time");
+    crate::vcover!(r.is_err(), "rejected time");
     core::mem::forget((m, r));
 });
 
@@ -349,7 +349,7 @@ fn fallback_body(fast_start: bool) {
     assert!(mc.video.durations[0] == 700 && mc.audio.durations[0] == 900, "stored durations are passed through");
     assert!(mc.video.durations[1] == vlast.unwrap_or(1), "final video sample gets the video track's last delta (or 1)");
     assert!(mc.audio.durations[1] == alast.unwrap_or(1), "final audio sample gets the audio track's last delta (or 1)");
-    kani::cover!(vlast.is_some() && alast.is_some() && vlast != alast, "tracks with different last deltas");
+    crate::vcover!(vlast.is_some() && alast.is_some() && vlast != alast, "tracks with different last deltas");
     core::mem::forget((w, r));
 }
 //@ prop=C03,C08 tier=quick cost=400 fns="Mp4Writer::finalize,finalize_standard,SampleTables::from_samples" bound="standard layout, 2 video + 2 audio samples, any remembered last deltas (Option<u32> each), any final pts < 2^31" unwind=7 stubs="build_moov_box(recording stand-in)" timeout=1400 mem=20
